@@ -14,8 +14,9 @@ requests
                                                       "tree":T(new root),"absEq":b,"origSame":b}
   {"op":"frame","before":store,"after":store,"other":l,"fuel":n}
                                                    → {"absEq":b,"changed":[l…],"confined":b}
-  {"op":"kvadd","heap":store,"a":l,"b":l,"fuel":n} → {"ok":b,"a":T,"b":T,"res":T}
-  {"op":"kviadd","which":"iadd"|"extend","heap":store,"a":l,"b":l,"fuel":n} → {"ok":b,"a":T,"b":T}
+  {"op":"kvadd","heap":store,"a":l,"b":l,"bl":l,"fuel":n} → {"ok":b,"a":T,"b":T,"res":T}
+  {"op":"kviadd","which":"iadd"|"extend","heap":store,"a":l,"b":l,"bl":l,"fuel":n} → {"ok":b,"a":T,"b":T}
+     (bl = the list object iterated: b's children list, or b itself when b is a plain list)
 T (labelled tree) = atom int | "cut" | "dangling" | [cls, label, mut, [[field, T]…]]
    label = the location when it is < k (an object that existed before the operation), else -1
 -/
@@ -127,8 +128,13 @@ def handle (j : Json) : Except String Json := do
     let h ← storeOf (← j.getObjVal? "heap")
     let l ← j.getObjValAs? Nat "root"
     let n ← j.getObjValAs? Nat "fuel"
+    let bad := h.foldl (fun acc o => if !o.mu then acc else
+        o.fields.foldl (fun acc p => if slotOKB h (tr o.cls p.1) p.2 then acc else
+          let e := Json.arr #[clsJson o.cls, fieldJson o.cls p.1]
+          if acc.contains e then acc else acc ++ [e]) acc) ([] : List Json)
     let flags := [("closed", Json.bool (closedB h)), ("immClosed", Json.bool (immClosedB h)),
-                  ("wellKinded", Json.bool (wellKindedB T h)), ("adequate", Json.bool (adequateB tr h))]
+                  ("wellKinded", Json.bool (wellKindedB T h)), ("adequate", Json.bool (adequateB tr h)),
+                  ("inadequate", Json.arr bad.toArray)]
     match copyWith tr n h l with
     | none => pure (Json.mkObj (("ok", Json.bool false) :: flags))
     | some (h1, l') =>
@@ -152,7 +158,8 @@ def handle (j : Json) : Except String Json := do
     let a ← j.getObjValAs? Nat "a"
     let b ← j.getObjValAs? Nat "b"
     let n ← j.getObjValAs? Nat "fuel"
-    match kvAdd Gen.Copy.kvAddTarget tr n vf h a b with
+    let bl ← j.getObjValAs? Nat "bl"
+    match kvAdd Gen.Copy.kvAddTarget tr n vf h a bl with
     | none => pure (Json.mkObj [("ok", Json.bool false)])
     | some (h2, c) =>
       pure (Json.mkObj [("ok", Json.bool true), ("a", labJson h.length n h2 a), ("b", labJson h.length n h2 b),
@@ -164,7 +171,8 @@ def handle (j : Json) : Except String Json := do
     let n ← j.getObjValAs? Nat "fuel"
     let which ← j.getObjValAs? String "which"
     let cp := if which == "iadd" then Gen.Copy.kvIAddCopies else Gen.Copy.kvExtendCopies
-    match kvIAdd cp tr n vf h a b with
+    let bl ← j.getObjValAs? Nat "bl"
+    match kvIAdd cp tr n vf h a bl with
     | none => pure (Json.mkObj [("ok", Json.bool false)])
     | some h2 =>
       pure (Json.mkObj [("ok", Json.bool true), ("a", labJson h.length n h2 a), ("b", labJson h.length n h2 b)])
